@@ -226,9 +226,22 @@ func harnesses(r *fw.Run) []fw.HarnessSpec {
 				if json.Unmarshal(pdoc, dst.Interface()) != nil {
 					continue
 				}
+				// a copy of the earlier value, taken the way Go programs take copies (assignment), keeps that value
+				keep := reflect.New(e.Type).Elem()
+				keep.Set(dst.Elem())
+				var keepDoc []byte
+				if kd, err := json.Marshal(keep.Addr().Interface()); err == nil {
+					keepDoc = kd
+				}
 				if err := json.Unmarshal(doc, dst.Interface()); err != nil {
 					c.Fail("parse-into-used-destination-error:"+e.Name, "own JSON %s parses into a fresh value but not into one that held %s: %v", trunc(string(doc)), trunc(string(pdoc)), err)
 					return
+				}
+				if keepDoc != nil {
+					if kd2, err := json.Marshal(keep.Addr().Interface()); err != nil || string(kd2) != string(keepDoc) {
+						c.Fail("earlier-copy-changed:"+e.Name, "a copy of the value parsed from %s prints as %s (%v) after %s was parsed into the variable it was copied from", trunc(string(keepDoc)), trunc(string(kd2)), err, trunc(string(doc)))
+						return
+					}
 				}
 				if d := gen.Equal(judged, dst.Elem()); d != "" {
 					c.Fail("parse-into-used-destination:"+e.Name, "the scalar document %s parsed into a value that held %s differs from the value at %s", trunc(string(doc)), trunc(string(pdoc)), d)
